@@ -237,6 +237,22 @@ class Inliner:
                 cls = recv
             if cls is not None:
                 target = self._method(cls, f.attr)
+            elif caller.cls is not None:
+                # x.helper(..) on another object inside a method: a helper
+                # outside the inventory whose name exists exactly once in the
+                # package and belongs to the caller's class family is the
+                # method that runs (the receiver is an instance of the family,
+                # e.g. `other` behind `type(other) is type(self)`)
+                owners = [c for c, ci in self.prog.classes.items()
+                          if f.attr in ci.methods]
+                if len(owners) == 1:
+                    fam = set(self.prog.mro(caller.cls.name)) | set(
+                        self.prog.subclasses(caller.cls.name))
+                    cand = self.prog.classes[owners[0]].methods[f.attr]
+                    if owners[0] in fam and cand.qual not in self.keep \
+                            and not cand.is_classmethod() \
+                            and not cand.is_staticmethod():
+                        target = cand
         if target is None or target.qual in self.keep:
             return None
         if target.qual == caller.qual:
@@ -394,8 +410,94 @@ class Inliner:
                         lst[:] = [x for x in lst if x is not node] or [
                             ast.copy_location(ast.Pass(), node)]
 
+    # -- hoisting ------------------------------------------------------------
+    def _eval_order(self, e, out):
+        """Calls of e in completion order (left-to-right evaluation);
+        comprehensions / lambdas / conditional parts are opaque barriers."""
+        if e is None:
+            return
+        if isinstance(e, (ast.ListComp, ast.SetComp, ast.DictComp,
+                          ast.GeneratorExp, ast.Lambda, ast.IfExp,
+                          ast.BoolOp, ast.NamedExpr, ast.Await, ast.Yield,
+                          ast.YieldFrom)):
+            out.append(("barrier", e))
+            return
+        if isinstance(e, ast.Call):
+            self._eval_order(e.func, out)
+            for a in e.args:
+                self._eval_order(a.value if isinstance(a, ast.Starred) else a,
+                                 out)
+            for k in e.keywords:
+                self._eval_order(k.value, out)
+            out.append(("call", e))
+            return
+        for c in ast.iter_child_nodes(e):
+            if isinstance(c, ast.expr):
+                self._eval_order(c, out)
+
+    def _hoist(self, fi, fn, stmts):
+        """`stmt(.. helper(..) ..)` -> `t = helper(..); stmt(.. t ..)` for
+        helpers that can only be inlined at statement level, when nothing
+        with a side effect is evaluated before the helper call."""
+        out, changed = [], False
+        for st in stmts:
+            for f in ("body", "orelse", "finalbody"):
+                sub = getattr(st, f, None)
+                if isinstance(sub, list) and sub and isinstance(
+                        sub[0], ast.stmt):
+                    new, c = self._hoist(fi, fn, sub)
+                    setattr(st, f, new)
+                    changed |= c
+            for h in getattr(st, "handlers", []) or []:
+                h.body, c = self._hoist(fi, fn, h.body)
+                changed |= c
+            value = None
+            if isinstance(st, (ast.Return, ast.Expr)):
+                value = st.value
+            elif isinstance(st, (ast.Assign, ast.AnnAssign, ast.AugAssign)):
+                value = st.value
+                tg = st.targets if isinstance(st, ast.Assign) else [st.target]
+                if not all(isinstance(t, ast.Name) for t in tg):
+                    value = None
+            pre = []
+            if value is not None and not (isinstance(value, ast.Call)
+                                          and self.resolve(fi, value)):
+                events: list = []
+                self._eval_order(value, events)
+                for kind, node in events:
+                    if kind == "barrier":
+                        break
+                    target = self.resolve(fi, node)
+                    if target is None or _shape(target.node) != "tail":
+                        break          # another call completes first
+                    name = self._fresh("hoisted")
+                    pre.append(ast.copy_location(ast.Assign(
+                        targets=[ast.Name(name, ast.Store())],
+                        value=node), st))
+                    repl = ast.copy_location(ast.Name(name, ast.Load()), node)
+                    for holder in ast.walk(st):
+                        for fld, v in ast.iter_fields(holder):
+                            if v is node:
+                                setattr(holder, fld, repl)
+                            elif isinstance(v, list):
+                                for i, x in enumerate(v):
+                                    if x is node:
+                                        v[i] = repl
+                                    elif isinstance(x, ast.keyword) and \
+                                            x.value is node:
+                                        x.value = repl
+                    self._introduced.add(name)
+            if pre:
+                changed = True
+                ast.fix_missing_locations(st)
+            out.extend(pre)
+            out.append(st)
+        return out, changed
+
     def _round(self, fi: FuncInfo, fn: ast.FunctionDef) -> bool:
         changed = False
+        fn.body, c = self._hoist(fi, fn, fn.body)
+        changed |= c
         # statement level first (keeps `x = f()` readable), then expressions
         fn.body, c = self._stmts(fi, fn, fn.body)
         changed |= c
